@@ -22,7 +22,7 @@ def load_domains():
 
 
 SSA_ONLY = ('6.3', '7.0', '7.1', '8.0')          # unsound renaming (known finding): only single-assignment profiles
-SSA_PROFILES = ('ssa', 'ssald', 'ssamem')
+SSA_PROFILES = ('ssa', 'ssald', 'ssamem', 'ssabr', 'ssabr1')
 FEATURE_WHITELIST = {'4': ['cold-store-then-load'], '5': ['cold-store-then-load']}
 DEFAULT_FEATURES = []      # feature exclusions proved unreliable for the 6.x+ variants: whole cells only
 
